@@ -207,6 +207,8 @@ def _run_one(case):
         old = None   # not in the main thread of this process
     try:
         return _PROP.run_impl(case)
+    except CaseTimeout:
+        return {'__timeout__': True}
     except BaseException as e:  # harness failure, not an observation
         import traceback
         return {'__harness_error__': f'{type(e).__name__}: {e}', 'tb': traceback.format_exc()[-1500:]}
@@ -273,9 +275,15 @@ def check_batch(prop, modname, tag, cases, jobs):
                            f'case={json.dumps(cases[i])[:2000]}')
     failures = []
     for i, (c, o) in enumerate(zip(cases, obs)):
+        if isinstance(o, dict) and o.get('__timeout__'):
+            failures.append((i, fail('implementation-timeout',
+                                     'the implementation did not finish this (terminating by construction) case '
+                                     'within the per-case time limit')))
+            continue
         for f in prop.monitor(c, o):
             failures.append((i, f))
-    terms = [(i, prop.coq_check(c, o)) for i, (c, o) in enumerate(zip(cases, obs))]
+    terms = [(i, prop.coq_check(c, o)) for i, (c, o) in enumerate(zip(cases, obs))
+             if not (isinstance(o, dict) and o.get('__timeout__'))]
     codes = eval_in_coq(prop, tag, terms, jobs)
     mism = sorted(i for i, c in codes.items() if c == 1)
     unsup = sorted(i for i, c in codes.items() if c == 2)
@@ -342,7 +350,7 @@ def run_check(modname, argv):
         widened = len(extra)
         obs2 = run_impl_all(prop, modname, extra, args.jobs)
         for j, (c, o) in enumerate(zip(extra, obs2)):
-            if isinstance(o, dict) and '__harness_error__' in o:
+            if isinstance(o, dict) and ('__harness_error__' in o or o.get('__timeout__')):
                 continue
             for f in prop.monitor(c, o):
                 cases.append(c)
@@ -406,6 +414,9 @@ def run_check(modname, argv):
     nontriv = set()
     dist = Counter()
     for c, o in zip(cases, obs):
+        if isinstance(o, dict) and o.get('__timeout__'):
+            dist['implementation-timeout'] += 1
+            continue
         for tg in prop.describe(c, o):
             dist[tg] += 1
         if prop.nontrivial(c, o):
